@@ -34,6 +34,7 @@ void buildArgv(const Desc& d, Vec<Str>& av) {
     if (c.shuffle == 2) av.push_back("-s");
     if (c.runIgnored) av.push_back("-ri");
     if (c.separate) av.push_back("-p");
+    if (c.separate && d.pi("crash_on_fail")) av.push_back("-f");
     if (c.output == 1) av.push_back("-onormal");
     if (c.output == 2) av.push_back("-oeclipse");
     if (c.output == 3) av.push_back("-ojunit");
@@ -368,6 +369,7 @@ void generate(uint64_t seed, const Str& profile, Desc& d, bool exceptions) {
     d.p["verbose"] = cfg.chance(1, 4) ? 1 : (cfg.chance(1, 25) ? 2 : 0);
     d.p["color"] = cfg.chance(1, 8);
     d.p["use_ci"] = cfg.chance(1, 4);
+    if (profile == "process" && cfg.chance(1, 6)) d.p["crash_on_fail"] = 1;      // -f together with -p: a failing check crashes the child, never the runner
     if (f.junit) { d.p["output"] = 3; if (cfg.chance(1, 2)) d.sp["package"] = pickName(cfg, f, "pk", 0, false); if (d.pi("verbose") == 2) d.p["verbose"] = 1; }
     else if (f.teamcity || (f.procReal && cfg.chance(1, 4))) d.p["output"] = 4;      // (a quarter of the real separate-process runs report through TeamCity)
     else if (f.leaks && !f.procReal && cfg.chance(1, 8)) d.p["output"] = 3;      // an output that allocates between the tests (JUnitTestOutput keeps a node per test): such a block belongs to no test
